@@ -239,6 +239,7 @@ def text_not_altered(prog, chk):
     from props.C01 import strip_closures
 
     seen = collections.Counter()
+    sites = {}
     n = 0
     for b in prog.bodies.values():
         if not (b.path.startswith("svgdx::text::") or b.path.startswith("<svgdx::transform::Container as svgdx::transform::EventGen>::generate_events") or b.path.startswith("svgdx::events::InputEvent::text_string") or b.path.startswith("svgdx::events::InputEvent::cdata_string") or b.path.startswith("svgdx::events::unescaped_text")):
@@ -246,15 +247,25 @@ def text_not_altered(prog, chk):
         chk.touch(b)
         for (bb, t, c) in b.call_sites(lambda c: c.path.split("::")[-1] in TEXT_ALTERING and ("str" in c.path.lower() or "string" in c.path.lower())):
             k = (strip_closures(b.path), c.path.split("::")[-1])
-            seen[k] += 1
+            seen[k[1]] += 1
+            sites.setdefault(k[1], []).append((b, bb, t))
             n += 1
-            ent = TEXT_ALTERING_OK.get(k)
-            ok = ent is not None and seen[k] <= ent[0]
-            from props import strops as _so
+    # judged per operation over the whole scope (a helper spliced into its caller, code moved between two functions of
+    # the scope, or an escaper hoisted to module level keep the totals): one more application of an *altering* operation
+    # than the reviewed total is a violation; slicing / splitting operations that are not in the list are UNDECIDED
+    from props import strops as _so
 
-            if not ok and k[1] not in _so.ALTERING_OPS:
-                # slicing / splitting: a rewrite that keeps every character does this as well - no verdict from the inventory
-                chk.undecided("A14.text-verbatim", f"{k[0].replace('svgdx::', '')}:{k[1]}", b.where(bb, t.get("line")), f"{b.short} applies str::{k[1]}() (a slicing / splitting operation) at a place that is not in the reviewed list; whether characters are lost depends on what is done with the pieces")
-                continue
-            chk.ob(ok, "A14.text-verbatim", f"{k[0].replace('svgdx::', '')}:{k[1]}#{seen[k]}", b.where(bb, t.get("line")), f"reviewed: {ent[1] if ent else ''}", f"{b.short} applies str::{k[1]}() in the text pipeline; this is not one of the reviewed places: characters of the author's text (blanks, backslashes, ...) can be dropped or changed on their way to the <text>/<tspan> content", by="table")
+    allowed = collections.Counter()
+    for (fn_, op_), (cnt_, _why) in TEXT_ALTERING_OK.items():
+        allowed[op_] += cnt_
+    for op_ in sorted(seen):
+        first = sites[op_][0]
+        where_ = first[0].where(first[1], first[2].get("line"))
+        if seen[op_] <= allowed[op_]:
+            chk.ok("A14.text-verbatim", op_, where_, f"str::{op_}() applied {seen[op_]} time(s) (reviewed: {allowed[op_]})", by="table")
+        elif op_ not in _so.ALTERING_OPS:
+            chk.undecided("A14.text-verbatim", op_, where_, f"str::{op_}() (a slicing / splitting operation) is applied {seen[op_]} time(s) in the text pipeline, reviewed {allowed[op_]}; whether characters are lost depends on what is done with the pieces")
+        else:
+            extra = [x[0].where(x[1], x[2].get("line")) for x in sites[op_]]
+            chk.bad("A14.text-verbatim", op_, where_, f"str::{op_}() is applied {seen[op_]} time(s) in the text pipeline (reviewed: {allowed[op_]}; sites {extra}): one more character-altering operation than reviewed - attribute values, class lists or character data can be altered on their way")
     chk.floor("A14.text-verbatim", n, 2, "character-altering string operation in src/text.rs")
